@@ -61,6 +61,14 @@ CLAIMED = {
              "spurious CAS failures); recorded executions of the real Strand are validated against it.",
         note=CONC_NOTE + "; the underlying executor is the harness pool", design="7/C07",
         technique="TLA+ spec + TLC model checking; schedule enumeration on the code with TLC trace validation"),
+    "C08": dict(
+        text="ThreadPool.tla models Submit, the worker loop, Stop, SoftStop, HardStop and Wait at mutex / condition-variable "
+             "operation granularity (count encoding: jobs queued or running, stop requested, stopped); TLC checks "
+             "Called-or-Dropped exactly once, Stop runs everything accepted, SoftStop stops only when idle, nothing runs after "
+             "Wait, single-worker FIFO and the absence of lost wake-ups (non-quiescent deadlock) for all interleavings incl. "
+             "every notify target; recorded executions of the real pool under the controlled fiber scheduler are validated.",
+        note=CONC_NOTE, design="7/C08",
+        technique="TLA+ spec + TLC model checking; schedule enumeration on the code with TLC trace validation"),
     "C09": dict(
         text="When.tla models the combinator (per-input SetCallback, inline Consume + DecRef for inputs that are already "
              "complete, the counter, every strategy's atomic protocol and destructor) for All<None|FirstFail> and "
